@@ -72,19 +72,12 @@ def rules(ctx, db):
             ctx.missing("R1", "Uninit::as_uninit")
         for g in au:
             from .. import arith
-            oku = False
-            for bb, t in calls(g, arith.INDEX):
-                tgt = arg_origin_calls(g, t, 0)
-                rng = op_place(t["args"][1])
-                bound_from_len = False
-                if rng is not None:
-                    locs, cr, _ = data_deps(g, rng["l"])
-                    bound_from_len = any(call_matches(ct, r"buf_len$") for _, ct in cr)
-                if any(call_matches(x, r"as_uninit$") for x in tgt) and bound_from_len and "RangeFrom" in (t.get("ga") or ["", ""])[1]:
-                    oku = True
-            ctx.ob("R1", "uninit-view-skips-recorded-bytes", oku,
-                   "Uninit::as_uninit re-slices the inner writable region from the view's own recorded length: a second fill "
-                   "lands behind the first one and the writable region shrinks as it is filled", g)
+            inner = calls(g, r"as_uninit$")
+            resl = calls(g, arith.INDEX)
+            ctx.ob("R1", "uninit-view-as_uninit-is-the-full-region", bool(inner) and not resl,
+                   "Uninit::as_uninit returns the whole writable region of the view (the contract of IoBufMut::as_uninit), so "
+                   "the bytes as_init reports are a prefix of it; re-slicing it by the recorded length makes every generic "
+                   "helper skip those bytes twice", g)
     # ---------------- R2
     sl = "compio_buf::slice::Slice"
     from ..util import deep_deps
@@ -213,8 +206,6 @@ R5_EXCEPTIONS = {
         "`offset` was computed by IoVectoredBuf::slice against this very member (R2 checks that loop); the view is immutable afterwards",
     ("<compio_buf::slice::VectoredSlice<T> as compio_buf::io_vec_buf::IoVectoredBufMut>::iter_uninit_slice", "index-RangeFrom"):
         "`offset` was computed by IoVectoredBufMut::slice_mut against this very member's length, which its capacity bounds",
-    ("<compio_buf::uninit::Uninit<T> as compio_buf::io_buf::IoBufMut>::as_uninit", "index-RangeFrom"):
-        "Uninit::buf_len is the wrapped slice's begin-relative length, bounded by the wrapped buffer's capacity (IoBuf contract of the inner view)",
 }
 
 
